@@ -1,202 +1,7 @@
-(* driver.ml — runs the extracted Coq model on case lines (same line protocol as the Rust harness).
-   Reads case lines on stdin, writes one result line per case on stdout. Hand-written glue:
-   parsing, printing and int <-> N conversion only; every decision is made by Model.*. *)
+(* driver.ml — main loop of the model driver: dispatches case lines to handlers (see dutil.ml, driver_hs.ml) *)
 open Model
-
-(* ---------- int <-> Coq numbers ---------- *)
-let rec pos_of_int (i : int) : positive =
-  if i = 1 then XH else if i land 1 = 0 then XO (pos_of_int (i lsr 1)) else XI (pos_of_int (i lsr 1))
-let n_of_int (i : int) : n = if i = 0 then N0 else Npos (pos_of_int i)
-let rec int_of_pos = function XH -> 1 | XO p -> 2 * int_of_pos p | XI p -> 2 * int_of_pos p + 1
-let int_of_n = function N0 -> 0 | Npos p -> int_of_pos p
-(* decimal strings up to 2^64-1 do not fit OCaml's 63-bit int: go through a digit loop on N *)
-let n_ten = n_of_int 10
-let n_of_string (s : string) : n =
-  let acc = ref N0 in
-  String.iter (fun ch -> acc := N.add (N.mul !acc n_ten) (n_of_int (Char.code ch - 48))) s; !acc
-let rec string_of_n (x : n) : string =
-  match x with
-  | N0 -> "0"
-  | _ ->
-    let q = N.div x n_ten and r = N.modulo x n_ten in
-    (match q with N0 -> "" | _ -> string_of_n q) ^ string_of_int (int_of_n r)
-let rec nat_of_int i = if i = 0 then O else S (nat_of_int (i - 1))
-
-(* ---------- hex ---------- *)
-let hexval c = match c with
-  | '0'..'9' -> Char.code c - 48 | 'a'..'f' -> Char.code c - 87 | 'A'..'F' -> Char.code c - 55
-  | _ -> failwith "hex"
-let bytes_of_hex (s : string) : bytes =
-  if s = "-" then [] else begin
-    let n = String.length s / 2 in
-    let r = ref [] in
-    for i = n - 1 downto 0 do
-      r := n_of_int (hexval s.[2*i] * 16 + hexval s.[2*i+1]) :: !r
-    done; !r end
-let hexdig = "0123456789abcdef"
-let hex_of_bytes (b : bytes) : string =
-  match b with [] -> "-" | _ ->
-  let buf = Buffer.create 64 in
-  List.iter (fun x -> let v = int_of_n x in
-              Buffer.add_char buf hexdig.[(v lsr 4) land 15]; Buffer.add_char buf hexdig.[v land 15]) b;
-  Buffer.contents buf
-
-let split c s = String.split_on_char c s
-let list_of_field s = if s = "-" || s = "" then [] else split ',' s
-
-(* ---------- printing ---------- *)
-let io_kind_s = function WouldBlock -> "wb" | ConnReset -> "reset" | Interrupted -> "intr" | IoOther -> "other"
-let io_kind_of = function "wb" -> WouldBlock | "reset" -> ConnReset | "intr" -> Interrupted | _ -> IoOther
-
-let key_s = function
-  | None -> "-"
-  | Some k -> hex_of_bytes (key_bytes k)
-let b01 b = if b then "1" else "0"
-let header_s (h : header) =
-  b01 h.h_fin ^ b01 h.h_rsv1 ^ b01 h.h_rsv2 ^ b01 h.h_rsv3 ^ ":" ^ string_of_n (opcode_to_u8 h.h_opcode)
-  ^ ":" ^ key_s h.h_mask
-let frame_s (f : frame) = header_s f.f_hdr ^ ":" ^ hex_of_bytes f.f_payload
-
-let close_code_name = function
-  | CNormal -> "Normal" | CAway -> "Away" | CProtocol -> "Protocol" | CUnsupported -> "Unsupported"
-  | CStatus -> "Status" | CAbnormal -> "Abnormal" | CInvalid -> "Invalid" | CPolicy -> "Policy"
-  | CSize -> "Size" | CExtension -> "Extension" | CError -> "Error" | CRestart -> "Restart"
-  | CAgain -> "Again" | CTls -> "Tls" | CReservedC _ -> "Reserved" | CIana _ -> "Iana"
-  | CLibrary _ -> "Library" | CBad _ -> "Bad"
-
-let close_s = function
-  | None -> "-"
-  | Some (code, reason) -> string_of_n (close_to_u16 code) ^ ":" ^ hex_of_bytes reason
-
-let data_op_s = function Continue -> "0" | Text -> "1" | Binary -> "2" | DReserved i -> string_of_n i
-let proto_s = function
-  | ResetWithoutClosingHandshake -> "ResetWithoutClosingHandshake"
-  | SendAfterClosing -> "SendAfterClosing" | ReceivedAfterClosing -> "ReceivedAfterClosing"
-  | NonZeroReservedBits -> "NonZeroReservedBits" | UnmaskedFrameFromClient -> "UnmaskedFrameFromClient"
-  | MaskedFrameFromServer -> "MaskedFrameFromServer" | FragmentedControlFrame -> "FragmentedControlFrame"
-  | ControlFrameTooBig -> "ControlFrameTooBig"
-  | UnknownControlFrameType i -> "UnknownControlFrameType:" ^ string_of_n i
-  | UnknownDataFrameType i -> "UnknownDataFrameType:" ^ string_of_n i
-  | UnexpectedContinueFrame -> "UnexpectedContinueFrame"
-  | ExpectedFragment d -> "ExpectedFragment:" ^ data_op_s d
-  | InvalidCloseSequence -> "InvalidCloseSequence"
-  | InvalidOpcode i -> "InvalidOpcode:" ^ string_of_n i
-let error_s = function
-  | EConnectionClosed -> "err:closed" | EAlreadyClosed -> "err:already"
-  | EIo k -> "err:io:" ^ io_kind_s k
-  | ECapacity (s, m) -> "err:cap:" ^ string_of_n s ^ ":" ^ string_of_n m
-  | EProtocol p -> "err:proto:" ^ proto_s p
-  | EWriteBufferFull f -> "err:full:" ^ frame_s f
-  | EUtf8 -> "err:utf8"
-let message_s = function
-  | MText b -> "ok:T:" ^ hex_of_bytes b | MBinary b -> "ok:B:" ^ hex_of_bytes b
-  | MPing b -> "ok:PI:" ^ hex_of_bytes b | MPong b -> "ok:PO:" ^ hex_of_bytes b
-  | MClose c -> "ok:C:" ^ close_s c | MFrame f -> "ok:F:" ^ frame_s f
-let res_s okf = function
-  | ROk a -> okf a | RErr e -> error_s e | RPanic s -> "panic:" ^ string_of_n s | ROutOfFuel -> "outoffuel"
-let op_result_s = function
-  | ResMsg r -> res_s message_s r | ResUnit r -> res_s (fun _ -> "ok") r | ResBool b -> if b then "true" else "false"
-
-let event_s = function
-  | EvRead (RdData b) -> Some ("R:" ^ hex_of_bytes b)
-  | EvRead RdEof -> Some "R:eof"
-  | EvRead (RdErr k) -> Some ("R:e:" ^ io_kind_s k)
-  | EvWrite (off, acc) -> Some ("W:" ^ string_of_n off ^ ":" ^ hex_of_bytes acc)
-  | EvWriteErr (off, k) -> Some ("W:" ^ string_of_n off ^ ":e:" ^ io_kind_s k)
-  | EvFlush FlOk -> Some "F:ok"
-  | EvFlush (FlErr k) -> Some ("F:e:" ^ io_kind_s k)
-  | EvQueue _ -> None
-  | EvReserve _ -> None
-
-(* ---------- parsing of E2 cases ---------- *)
-let close_of_fields code hex : close_frame option =
-  if code = "-" then None else Some (close_of_u16 (n_of_string code), bytes_of_hex hex)
-
-let header_of_fields flags opc mask : header =
-  { h_fin = flags.[0] = '1'; h_rsv1 = flags.[1] = '1'; h_rsv2 = flags.[2] = '1'; h_rsv3 = flags.[3] = '1';
-    h_opcode = (match opcode_of_u8 (n_of_string opc) with Some o -> o | None -> failwith "opcode");
-    h_mask = (if mask = "-" then None else
-                match bytes_of_hex mask with [a;b;c;d] -> Some (((a,b),c),d) | _ -> failwith "mask") }
-
-let op_of_string (s : string) : op =
-  match split ':' s with
-  | ["r"] -> OpRead
-  | ["f"] -> OpFlush
-  | ["cr"] -> OpCanRead
-  | ["cw"] -> OpCanWrite
-  | ["wt"; h] -> OpWrite (MText (bytes_of_hex h))
-  | ["wb"; h] -> OpWrite (MBinary (bytes_of_hex h))
-  | ["wpi"; h] -> OpWrite (MPing (bytes_of_hex h))
-  | ["wpo"; h] -> OpWrite (MPong (bytes_of_hex h))
-  | ["wc"; "-"] -> OpWrite (MClose None)
-  | ["wc"; code; h] -> OpWrite (MClose (close_of_fields code h))
-  | ["wf"; flags; opc; mask; h] -> OpWrite (MFrame { f_hdr = header_of_fields flags opc mask; f_payload = bytes_of_hex h })
-  | ["c"; "-"] -> OpClose None
-  | ["c"; code; h] -> OpClose (close_of_fields code h)
-  | ["sb"; a; b] -> OpSetBuf (n_of_string a, (if b = "inf" then u64_max else n_of_string b))
-  | _ -> failwith ("bad op " ^ s)
-
-let rd_of_string s = match split ':' s with
-  | ["eof"] -> RdEof
-  | ["e"; k] -> RdErr (io_kind_of k)
-  | ["d"; h] -> RdData (bytes_of_hex h)
-  | _ -> failwith ("bad rd " ^ s)
-let wr_of_string s = match split ':' s with
-  | ["a"; n] -> WrAccept (n_of_string n)
-  | ["e"; k] -> WrErr (io_kind_of k)
-  | _ -> failwith ("bad wr " ^ s)
-let fl_of_string s = match split ':' s with
-  | ["ok"] -> FlOk
-  | ["e"; k] -> FlErr (io_kind_of k)
-  | _ -> failwith ("bad fl " ^ s)
-
-let opt_n s = if s = "none" then None else Some (n_of_string s)
-
-(* the hook's key sequence: key_i = be_bytes((seed + i * 0x9E3779B1) mod 2^32) *)
-let keys_of_seed (seed : int) (count : int) : key list =
-  let rec go i acc =
-    if i < 0 then acc else
-      let v = (seed + i * 0x9E3779B1) land 0xFFFFFFFF in
-      let b k = n_of_int ((v lsr k) land 255) in
-      go (i - 1) ((((b 24, b 16), b 8), b 0) :: acc) in
-  go (count - 1) []
-
-let rec drop_list n l = if n = 0 then l else match l with [] -> [] | _ :: r -> drop_list (n - 1) r
-let rec take_list n l = if n = 0 then [] else match l with [] -> [] | x :: r -> x :: take_list (n - 1) r
-
-let run_socket (f : string array) : string =
-  (* S id role wbs max mms mfs au rbs seed pre ops rds wrs fls *)
-  let role = if f.(2) = "s" then Server else Client in
-  let wbs = n_of_string f.(3) in
-  let max = if f.(4) = "inf" then u64_max else n_of_string f.(4) in
-  let cfg = { cfg_write_buffer_size = wbs; cfg_max_write_buffer_size = max;
-              cfg_max_message_size = opt_n f.(5); cfg_max_frame_size = opt_n f.(6);
-              cfg_accept_unmasked = (f.(7) = "1") } in
-  let seed = int_of_string f.(9) in
-  let pre = bytes_of_hex f.(10) in
-  let ops = List.map op_of_string (list_of_field f.(11)) in
-  let rds = List.map rd_of_string (list_of_field f.(12)) in
-  let wrs = List.map wr_of_string (list_of_field f.(13)) in
-  let fls = List.map fl_of_string (list_of_field f.(14)) in
-  let keys = keys_of_seed seed (2 * List.length ops + 4) in
-  match ctx_new role pre cfg with
-  | None -> "panic:config"
-  | Some x ->
-    let w = { w_rds = rds; w_wrs = wrs; w_fls = fls; w_keys = keys; w_log = [] } in
-    let ((results, _x'), w') = run_ops x ops w in
-    let log = w'.w_log in
-    let buf = Buffer.create 256 in
-    let pos = ref 0 in
-    let rest = ref log in
-    List.iteri (fun i (r, upto) ->
-        let upto = int_of_n upto in
-        let evs = take_list (upto - !pos) !rest in
-        rest := drop_list (upto - !pos) !rest; pos := upto;
-        if i > 0 then Buffer.add_string buf " | ";
-        Buffer.add_string buf (op_result_s r);
-        List.iter (fun e -> match event_s e with Some s -> Buffer.add_char buf ' '; Buffer.add_string buf s | None -> ()) evs)
-      results;
-    Buffer.contents buf
+type string = Stdlib.String.t
+open Dutil
 
 (* ---------- pure (E1) cases ---------- *)
 let run_closecode (f : string array) : string =
@@ -240,7 +45,7 @@ let () =
   let handlers : (string * (string array -> string)) list ref = ref [
     ("S", run_socket); ("CC", run_closecode); ("HP", run_header_parse); ("HF", run_header_format);
     ("FF", run_frame_format); ("U8", run_utf8); ("MK", run_mask) ] in
-  Driver_hs.register handlers;
+  handlers := !handlers @ Driver_hs.handlers;
   try
     while true do
       let line = input_line stdin in
